@@ -8,7 +8,6 @@ from decimal import Decimal
 from functools import partial
 from itertools import chain
 from itertools import islice
-from operator import getitem
 from typing import TYPE_CHECKING
 from typing import Any
 from typing import Iterable
@@ -16,6 +15,7 @@ from typing import Sequence
 
 from markupsafe import Markup
 
+from liquid2.utils.getitem import getitem
 from liquid2.builtin import Null
 from liquid2.builtin.expressions import _eq
 from liquid2.builtin.expressions import is_truthy
@@ -201,7 +201,7 @@ def uniq(sequence: Sequence[Any], key: object = None) -> list[object]:
         result = []
         for obj in sequence:
             try:
-                item = obj[key]
+                item = getitem(obj, key)
             except KeyError:
                 item = MISSING
             except TypeError as err:
@@ -224,7 +224,7 @@ def compact(sequence: Sequence[Any], key: object = None) -> list[object]:
     """Return a copy of _sequence_ with any NULL values removed."""
     if key is not None:
         try:
-            return [itm for itm in sequence if itm[key] is not None]
+            return [itm for itm in sequence if getitem(itm, key) is not None]
         except TypeError as err:
             raise LiquidTypeError(f"can't read property '{key}'", token=None) from err
     return [itm for itm in sequence if itm is not None]
